@@ -79,4 +79,12 @@ def isort (le : α → α → Bool) : List α → List α
   | [] => []
   | x :: xs => insertBy le x (isort le xs)
 
+
+/-- LegacyDec.String(): an 18-decimal fixed point number from its scaled integer -/
+def decString (scaled : Nat) : String :=
+  let ip := scaled / 10^18
+  let fp := scaled % 10^18
+  let fs := toString fp
+  toString ip ++ "." ++ String.mk (List.replicate (18 - fs.length) '0') ++ fs
+
 end ICS
